@@ -28,6 +28,14 @@ FIRST_MISS = {
  "C19-r3m3": "negative-zero attack / release times (constructor and setters)",
  "C20-r3m2": "Windower driven through nth / skip / step_by (Window.tla NthAfter)",
  "C20-r3m3": "direct evaluation of the window functions at given phases (1.0 and outside [0,1] included)",
+ "C07-r4m1": "fork heap clause judged beyond C12's lead assumption; random schedules that overrun the ring",
+ "C03-r4m2": "identity gain/offset judged at the top values whose float image is 1.0",
+ "C04-r4m1": "statically typed adaptor stacks (no boxing between levels)",
+ "C04-r4m2": "statically typed adaptor stacks (no boxing between levels), extreme delay counts",
+ "C19-r4m2": "clone-and-continue action for detectors / RMS",
+ "C20-r4m1": "Iterator provided methods (last, count, fold ...) on Windower / Window",
+ "C20-r4m2": "clone-and-continue action for Windower / Window",
+ "C20-r4m3": "public fields bin / hop / frames assigned between chunks (SetBin / SetHop / SetFrames actions)",
  "C09-r3m1": "nodes without buffers anywhere in random graphs (counted per incoming edge when they are inputs)",
 }
 rows = []
